@@ -18,7 +18,7 @@ func init() {
 		ID:    "C19",
 		Level: "exploration",
 		Rule: "cases: seeded histories of 1-30 operations from {Append, Prepend, Replace, Clear, All, caller overwrites an earlier argument slice in place, caller appends into the " +
-			"spare capacity of an earlier argument, caller writes through the slice returned by All} on one dst.Decorations; arguments are sub-slices of a shared arena with " +
+			"spare capacity of an earlier argument, caller writes through the slice returned by All, Append/Prepend/Replace whose argument is a sub-slice of All()} on one dst.Decorations; arguments are sub-slices of a shared arena with " +
 			"seeded spare capacity (also nil and empty variadics). A []string reference model is stepped in lock-step; the arena is snapshotted around every call (whole " +
 			"arg[:cap(arg)]); at the end the list is attached to a Start/End/named point of a parsed statement, printed, and the comment stream of the output is compared with " +
 			"All(). distinct_nontrivial = distinct (operation-kind sequence) hashes of length >= 3.",
@@ -82,7 +82,7 @@ func c19History(c *fw.Ctx, id string, i int) {
 		c.Violate(rule, rule, fmt.Sprintf("history %s ops=%v: %s", id, kinds, detail), "")
 	}
 	for op := 0; op < nops; op++ {
-		k := r.Intn(9)
+		k := r.Intn(10)
 		var kind string
 		switch k {
 		case 0, 1, 2:
@@ -145,6 +145,35 @@ func c19History(c *fw.Ctx, id string, i int) {
 				v := fresh()
 				got[j] = v
 				model[j] = v
+			}
+		case 9:
+			// the caller passes a view of the list itself (a sub-slice of All()) as the argument:
+			// it is still "the caller's argument slice" and must read the same after the call
+			cur := d.All()
+			if len(cur) == 0 {
+				kind = "self-arg-empty"
+				break
+			}
+			lo := r.Intn(len(cur))
+			hi := lo + 1 + r.Intn(len(cur)-lo)
+			arg := cur[lo:hi]
+			argCopy := append([]string(nil), arg...)
+			switch r.Intn(3) {
+			case 0:
+				kind = "Append(All()[i:j])"
+				d.Append(arg...)
+				model = append(append([]string(nil), model...), argCopy...)
+			case 1:
+				kind = "Prepend(All()[i:j])"
+				d.Prepend(arg...)
+				model = append(append([]string(nil), argCopy...), model...)
+			case 2:
+				kind = "Replace(All()[i:j])"
+				d.Replace(arg...)
+				model = append([]string(nil), argCopy...)
+			}
+			if !sameList(arg, argCopy) {
+				fail("argument-modified", fmt.Sprintf("%s changed the caller's argument slice: before %v, after %v", kind, argCopy, arg))
 			}
 		case 8:
 			kind = "Append-one"
